@@ -4,7 +4,7 @@ ENGINE = 'verus'
 CLASS = 'U'
 DOC = ('Database::{rollback_to_savepoint, undo_change} (storage/database/core.rs): ROLLBACK TO SAVEPOINT applies the INVERSE of every change recorded '
        'since the savepoint, last change first - Insert: take the row out, Update: take the NEW row out and put the OLD row back, Delete: put the '
-       'row back - over table contents as bags of rows. Together with unit X-sp (which changes are "since the savepoint") this is the storage half of '
+       'row back - over table contents as bags of rows, every row in the form the table STORES it (the log holds rows as handed in). Together with unit X-sp (which changes are "since the savepoint") this is the storage half of '
        'C14; that the executors record every change they make is NOT under contract (see TRUSTED).')
 
 TEMPLATE = r'''
@@ -20,21 +20,23 @@ pub enum StorageError { TableNotFound(Str), RowNotFound, Other }
 
 impl TransactionChange { #[verifier::external_body] pub fn clone(&self) -> (r: TransactionChange) ensures r == *self { unimplemented!() } }
 
+/// the form in which a table stores a row (Table::insert / update_row normalize: VARCHAR truncation, CHAR padding); the change log holds rows as handed in
+pub uninterp spec fn stored(row: Row) -> Row;
 /// table contents as bags of rows, per table name
 pub type State = Map<Str, Multiset<Row>>;
 /// the inverse of one recorded change
 pub open spec fn undo_one(m: State, c: TransactionChange) -> State {
     match c {
-        TransactionChange::Insert { table_name, row } => m.insert(table_name, m[table_name].remove(row)),
-        TransactionChange::Update { table_name, old_row, new_row } => m.insert(table_name, m[table_name].remove(new_row).insert(old_row)),
-        TransactionChange::Delete { table_name, row } => m.insert(table_name, m[table_name].insert(row)),
+        TransactionChange::Insert { table_name, row } => m.insert(table_name, m[table_name].remove(stored(row))),
+        TransactionChange::Update { table_name, old_row, new_row } => m.insert(table_name, m[table_name].remove(stored(new_row)).insert(stored(old_row))),
+        TransactionChange::Delete { table_name, row } => m.insert(table_name, m[table_name].insert(stored(row))),
     }
 }
 /// can the change be undone in this state? (its table exists and holds the row that has to go)
 pub open spec fn undoable(m: State, c: TransactionChange) -> bool {
     match c {
-        TransactionChange::Insert { table_name, row } => m.dom().contains(table_name) && m[table_name].count(row) > 0,
-        TransactionChange::Update { table_name, old_row, new_row } => m.dom().contains(table_name) && m[table_name].count(new_row) > 0,
+        TransactionChange::Insert { table_name, row } => m.dom().contains(table_name) && m[table_name].count(stored(row)) > 0,
+        TransactionChange::Update { table_name, old_row, new_row } => m.dom().contains(table_name) && m[table_name].count(stored(new_row)) > 0,
         TransactionChange::Delete { table_name, row } => m.dom().contains(table_name),
     }
 }
@@ -64,15 +66,30 @@ impl Database {
     #[verifier::external_body]
     fn tbl_remove_row(&mut self, t: &Str, row: &Row) -> (r: Result<(), StorageError>)
         requires old(self).view().dom().contains(*t)
-        ensures r is Ok <==> old(self).view()[*t].count(*row) > 0,
-                r is Ok ==> final(self).view() == old(self).view().insert(*t, old(self).view()[*t].remove(*row)),
+        ensures r is Ok <==> old(self).view()[*t].count(stored(*row)) > 0,
+                r is Ok ==> final(self).view() == old(self).view().insert(*t, old(self).view()[*t].remove(stored(*row))),
                 r is Err ==> final(self).view() == old(self).view()
     { unimplemented!() }
     // table.insert(row): ASSUMED to succeed for a row that was in this table before (already normalised, constraints held) and to add exactly it
     #[verifier::external_body]
     fn tbl_insert(&mut self, t: &Str, row: Row) -> (r: Result<(), StorageError>)
         requires old(self).view().dom().contains(*t)
-        ensures r is Ok ==> final(self).view() == old(self).view().insert(*t, old(self).view()[*t].insert(row)),
+        ensures r is Ok ==> final(self).view() == old(self).view().insert(*t, old(self).view()[*t].insert(stored(row))),
+                r is Err ==> final(self).view() == old(self).view()
+    { unimplemented!() }
+    // table.scan().iter().position(|row| row == &x): a position holding a row LITERALLY equal to x (no normalization of x)
+    pub uninterp spec fn holds_at(&self, t: Str, p: usize) -> Row;
+    #[verifier::external_body]
+    fn tbl_position_of(&self, t: &Str, row: &Row) -> (r: Option<usize>)
+        requires self.view().dom().contains(*t)
+        ensures r matches Some(p) ==> self.holds_at(*t, p) == *row && self.view()[*t].count(*row) > 0,
+                r is None ==> self.view()[*t].count(*row) == 0
+    { unimplemented!() }
+    // table.update_row(p, row): the row at p is replaced by the stored form of `row` (unit K-table)
+    #[verifier::external_body]
+    fn tbl_update_row(&mut self, t: &Str, p: usize, row: Row) -> (r: Result<(), StorageError>)
+        requires old(self).view().dom().contains(*t)
+        ensures r is Ok ==> final(self).view() == old(self).view().insert(*t, old(self).view()[*t].remove(old(self).holds_at(*t, p)).insert(stored(row))),
                 r is Err ==> final(self).view() == old(self).view()
     { unimplemented!() }
 
@@ -125,6 +142,9 @@ _T = 'crates/vibesql-storage/src/database/transactions.rs'
 _R12 = [
     ('re', r'let table = self\s*\.get_table_mut\(&table_name\)\s*\.ok_or_else\(\|\| StorageError::TableNotFound\(table_name\.clone\(\)\)\)\?;', 'self.require_table(&table_name)?;', None),
     ('re', r'table\.(remove_row|insert)\(', r'self.tbl_\1(&table_name, ', None),
+    # the same undo written through a position (a std idiom: iter().position(|row| row == &x) then update_row): recognised so that it is judged, not lost
+    ('re', r'(?s)table\s*\.scan\(\)\s*\.iter\(\)\s*\.position\(\|row\| row == &(\w+)\)\s*\.ok_or\(StorageError::RowNotFound\)\?', r'(match self.tbl_position_of(&table_name, &\1) { Some(p__) => p__, None => { return Err(StorageError::RowNotFound); } })', None),
+    ('re', r'table\.update_row\(', r'self.tbl_update_row(&table_name, ', None),
 ]
 
 ITEMS = {
@@ -178,7 +198,7 @@ CANARIES = ['canary_undo', 'canary_rollback']
 TRUSTED = [
     'external_body Str / Row (opaque), TransactionChange::clone (a copy); Database reduced to an abstract state view(): Map<table name, Multiset<Row>>',
     'external_body tm_rollback_to_savepoint: TransactionManager::rollback_to_savepoint returns the changes recorded since the savepoint (proved on the real function in unit X-sp) and does not touch table contents',
-    'external_body require_table / tbl_remove_row / tbl_insert (R12): get_table_mut(&name).ok_or_else(..)? followed by table.remove_row / table.insert, as operations on the bag of the named table. ASSUMED: remove_row removes exactly one equal row or fails with RowNotFound (cf. unit K-table); insert adds exactly the given row (it was in this table before: already normalised)',
+    'external_body require_table / tbl_remove_row / tbl_insert (R12): get_table_mut(&name).ok_or_else(..)? followed by table.remove_row / table.insert, as operations on the bag of the named table. ASSUMED (proved on the real Table functions in unit K-table): remove_row removes exactly one row equal to the STORED FORM of the given row, insert adds its stored form; tbl_position_of / tbl_update_row = the position idiom (literal equality) and Table::update_row. Earlier wording: remove_row removes exactly one equal row or fails with RowNotFound (cf. unit K-table); insert adds exactly the given row (it was in this table before: already normalised)',
     'NOT under contract: that INSERT / UPDATE / DELETE executors RECORD every change (Database::insert_row does; UpdateExecutor / DeleteExecutor / REPLACE / ON DUPLICATE KEY UPDATE / FK cascades do since the two C14 fixes, shown by SQL reproductions only)',
     'external_body perform_rollback (TransactionManager::rollback_transaction: snapshot restore, not under contract here), indexed_tables (the list_indexes / get_index iterator chain), rebuild_indexes (unit I-resolve): by assumed contracts; undo_change\'s own calls to rebuild_indexes are dropped from the bag view (they do not change table contents)',
     'row ORDER inside a table after a rollback is not part of the contract (undo re-appends rows)',
